@@ -312,6 +312,11 @@ class S:
         return bool(SB(self.t != 0))
 
     def __float__(self):
+        v = z3.simplify(self.t)
+        if z3.is_int_value(v):
+            return float(v.as_long())
+        if z3.is_rational_value(v):
+            return v.numerator_as_long() / v.denominator_as_long()
         raise Unsupported("float() of a symbolic value (dtype conversion inside the traced function)")
 
     def __int__(self):
